@@ -25,6 +25,8 @@ pub enum DagOp {
   Q { kind: u8, a: u16, b: u16 },
   /// Repeat the k-th most recent query (same kind, same nodes).
   QAgain { k: u8 },
+  /// n times: add a->b, remove it, add b->a, remove it (every insertion after the first reorders; only a and b are touched).
+  Flip { a: u16, b: u16, n: u16 },
 }
 
 #[derive(Clone, Debug, Serialize, Deserialize, PartialEq, Eq, Hash)]
@@ -51,6 +53,7 @@ pub fn pretty(c: &DagCase) -> String {
       DagOp::RemNode { s } => format!("N-({:#x})", s),
       DagOp::Q { kind, a, b } => format!("Q{}({:#x},{:#x})", kind, a, b),
       DagOp::QAgain { k } => format!("Q^{}", k),
+      DagOp::Flip { a, b, n } => format!("Flip({:#x},{:#x} x{})", a, b, n),
     });
   }
   s
@@ -72,6 +75,21 @@ pub fn op_strategy() -> impl Strategy<Value=DagOp> {
 
 pub fn case_strategy(max_init: u8, max_ops: usize) -> impl Strategy<Value=DagCase> {
   (2u8..=max_init, proptest::collection::vec(op_strategy(), 0..=max_ops), prop_oneof![2 => Just(0u8), 1 => Just(255u8), 1 => 2u8..9]).prop_map(|(init, ops, sweep_every)| DagCase { init, ops, sweep_every })
+}
+
+/// Long histories on a small graph: hundreds to thousands of insertions and removals (most insertions reorder), with the
+/// full sweep only every 16th operation. Reaches state that only builds up over many operations (counters, caches,
+/// free lists).
+pub fn long_case_strategy(max_init: u8, min_ops: usize, max_ops: usize) -> impl Strategy<Value=DagCase> {
+  let op = prop_oneof![
+    1 => Just(DagOp::AddNode),
+    10 => (any::<u16>(), any::<u16>(), 0u8..4).prop_map(|(s, d, data)| DagOp::AddEdge { s, d, data }),
+    7 => any::<u16>().prop_map(|k| DagOp::RemExisting { k }),
+    1 => any::<u16>().prop_map(|s| DagOp::RemOut { s }),
+    1 => (0u8..1, any::<u16>(), any::<u16>()).prop_map(|(kind, a, b)| DagOp::Q { kind, a, b }),
+    1 => (any::<u16>(), any::<u16>(), 1u16..200).prop_map(|(a, b, n)| DagOp::Flip { a, b, n }),
+  ];
+  (3u8..=max_init, proptest::collection::vec(op, min_ops..=max_ops)).prop_map(|(init, ops)| DagCase { init, ops, sweep_every: 16 })
 }
 
 // ---------------------------------------------------------------------------------------------------------------------
@@ -186,6 +204,7 @@ pub struct DagFacts {
   pub max_live: usize,
   pub edges_added: u64,
   pub single_queries: u64,
+  pub flips: u64,
   pub query_after_removal: bool,
 }
 
@@ -317,6 +336,25 @@ pub fn run_case(case: &DagCase, check_every: bool, facts: &mut DagFacts) -> Vec<
         if norm(&got) != norm(&expected) {
           fails.push((Tag::C11, format!("step {} {}: returned {:?}, reference says {:?}", step, desc, got, expected)));
         }
+      }
+      DagOp::Flip { a, b, n } => {
+        if total < 2 { continue; }
+        let (x, mut y) = (pick(*a, total), pick(*b, total));
+        if y == x { y = (x + 1) % total; }
+        desc = format!("flip({}<->{} x{})", x, y, n);
+        // Only between two live nodes that are not connected in either direction (otherwise the flip is not a flip).
+        if !m.live(x) || !m.live(y) || m.dist(x, y).is_some() || m.dist(y, x).is_some() { continue; }
+        for round in 0..*n {
+          for (s, d) in [(x, y), (y, x)] {
+            let got = sut.dag.add_edge(&sut.ids[s], &sut.ids[d], 9);
+            if got != Ok(true) { fails.push((Tag::C10, format!("step {} {} round {}: add_edge({}->{}) returned {:?}, reference says Ok(true)", step, desc, round, s, d, got))); break; }
+            facts.edges_added += 1;
+            let rem = sut.dag.remove_edge(&sut.ids[s], &sut.ids[d]);
+            if rem != Some(9) { fails.push((Tag::C11, format!("step {} {} round {}: remove_edge({}->{}) returned {:?}, reference says Some(9)", step, desc, round, s, d, rem))); break; }
+          }
+          if !fails.is_empty() { break; }
+        }
+        facts.flips += *n as u64;
       }
       DagOp::Q { .. } | DagOp::QAgain { .. } => {
         if total == 0 { continue; }
@@ -557,6 +595,7 @@ pub fn record(case: &DagCase, facts: &DagFacts, stats: &mut Stats, which: Tag) {
   if facts.readd_existing > 0 { stats.class("case_with_readd"); }
   if facts.cycles_rejected > 0 { stats.class("case_with_rejected_cycle"); }
   stats.class_n("single_queries", facts.single_queries);
+  stats.class_n("edge_flip_rounds", facts.flips);
   if case.sweep_every != 0 { stats.class("case_with_sparse_sweeps"); if facts.query_after_removal { stats.class("sparse_case_with_single_query_after_a_removal"); } }
   let nontrivial = match which {
     Tag::C10 => facts.big_reorder || facts.long_cycle_after_removal,
